@@ -186,8 +186,9 @@ func runC05(c *Ctx) {
 		}
 		r.Floor("R2", "range loops over the state-handler table", len(ranges), 1)
 	}
-	// state handler functions are not referenced elsewhere
-	for k, fn := range a.StTable {
+	// state handler functions are not referenced elsewhere (the entries as written: a forwarder's delegate has the
+	// forwarder as its one caller by construction)
+	for k, fn := range a.StTableRaw {
 		bad := ""
 		for _, cs := range c.Callers(fn) {
 			if cs.Parent().Synthetic == "" {
